@@ -123,6 +123,8 @@ pub enum ConnectionControl {
     GetMaxFrameSize(SizeResponder),
 }
 opaque!(SessTxOwned, AllocSessionError, ConnAllocError, ConnectionStopReason);
+#[verifier::external_body]
+pub fn amqp_error_of(which: u8, description: Option<String>) -> (r: AmqpError) { unimplemented!() }
 pub struct AllocResponder { pub g: Ghost<int> }
 impl AllocResponder {
     #[verifier::external_body]
@@ -429,6 +431,22 @@ impl ConnectionEngine {
         (old(self).connection.st is Start || old(self).connection.st is HeaderReceived || old(self).connection.st is HeaderSent || old(self).connection.st is HeaderExchange)
             ==> r is Err && final(self).transport.sent@ == old(self).transport.sent@,                                                                                                      // [C12.no-close-before-open] no close before the open exchange has begun
         old(self).connection.st is CloseReceived && r is Ok ==> final(self).transport.sent@ == old(self).transport.sent@.push(close_frame(error)) && final(self).connection.st is End,       // [C12.peer-close-answered] a close received from the peer is answered with exactly one close
+        r is Ok ==> r->Ok_0 is Stop,
+//@@ end
+
+//@@ fn file=fe2o3-amqp/src/connection/engine.rs impl=`~impl<Io,C>ConnectionEngine<Io,C>whereIo:AsyncRead+AsyncWrite+std::fmt::Debug+SendBound+Unpin+'static,C:endpoint::Connection<State=ConnectionState>` name=on_error
+//@@ qmark
+//@@ orsplit
+//@@ subst `definitions::Error::new(AmqpError::IllegalState, None, None)` => `amqp_error_of(1, None)` rule=R11
+//@@ subst `definitions::Error::new(AmqpError::NotImplemented, description.clone(), None)` => `amqp_error_of(2, description.clone())` rule=R11
+//@@ subst `definitions::Error::new(AmqpError::NotFound, description.clone(), None)` => `amqp_error_of(3, description.clone())` rule=R11
+//@@ spec
+    ensures
+        *error is TransportError ==> r == Ok::<Running, ConnectionInnerError>(Running::Stop) && final(self).transport.sent@ == old(self).transport.sent@,   // [C12.transport-gone] with the transport gone nothing is written any more
+        close_already_sent(old(self).connection.st) && (old(self).connection.st is Discarding || old(self).connection.st is End) ==> final(self).transport.sent@ == old(self).transport.sent@,   // [C12.close-at-most-once]
+        (*error is RemoteClosed || *error is RemoteClosedWithError) && old(self).connection.st is CloseReceived && r is Ok
+            ==> final(self).transport.sent@ == old(self).transport.sent@.push(close_frame(None)),                  // [C12.peer-close-answered] the answer to the peer's close carries no error of our own
+        r is Ok ==> r->Ok_0 is Stop,
 //@@ end
 
 //@@ fn file=fe2o3-amqp/src/connection/engine.rs impl=`~impl<Io,C>ConnectionEngine<Io,C>whereIo:AsyncRead+AsyncWrite+std::fmt::Debug+SendBound+Unpin+'static,C:endpoint::Connection<State=ConnectionState>` name=on_control
